@@ -184,6 +184,15 @@ pub fn c01_key(f: &Finding, p: &Program, _o: &Outcome) -> Option<String> {
             None
         }
         Kind::Rows => {
+            // `take` followed by the DISTINCT idiom `group {all columns} (take 1)`
+            let distinct_after_take = {
+                let t = sp.iter().position(|s| matches!(s, Step::Take(..)));
+                let d = sp.iter().rposition(|s| matches!(s, Step::Group { inner, .. } if matches!(inner.as_slice(), [Step::Take(Some(1), Some(1))])));
+                matches!((t, d), (Some(t), Some(d)) if t < d)
+            };
+            if distinct_after_take && f.sql.contains("DISTINCT") {
+                return Some("take-then-distinct-merged-into-one-select".into());
+            }
             // ungrouped aggregate applied to the single row of an earlier ungrouped aggregate
             let top: Vec<&Step> = p.main.iter().flat_map(|m| m.steps.iter()).collect();
             let first_agg = top.iter().position(|s| matches!(s, Step::Aggregate(_)));
@@ -250,7 +259,7 @@ fn win_fns(p: &Program) -> Vec<WinFn> {
     let mut out = vec![];
     for s in spine(p) {
         match s {
-            Step::Derive(items) | Step::Select(items) => items.iter().for_each(|i| in_e(&i.e, &mut out)),
+            Step::Derive(items) | Step::Select(items) => items.iter().filter(|i| !matches!(i.alias.as_deref(), Some("p") | Some("pc"))).for_each(|i| in_e(&i.e, &mut out)),
             Step::Filter(e) => in_e(e, &mut out),
             Step::Sort(k) => k.iter().for_each(|(_, e)| in_e(e, &mut out)),
             _ => {}
@@ -261,7 +270,8 @@ fn win_fns(p: &Program) -> Vec<WinFn> {
         for s in steps {
             match s {
                 Step::Group { inner, .. } | Step::Window { inner, .. } => deep(inner, out, f),
-                Step::Derive(items) | Step::Select(items) => items.iter().for_each(|i| f(&i.e, out)),
+                // (the frame-less companion aggregates `p`, `pc` of C04's placements are not the subject)
+                Step::Derive(items) | Step::Select(items) => items.iter().filter(|i| !matches!(i.alias.as_deref(), Some("p") | Some("pc"))).for_each(|i| f(&i.e, out)),
                 Step::Filter(e) => f(e, out),
                 Step::Sort(k) => k.iter().for_each(|(_, e)| f(e, out)),
                 _ => {}
@@ -315,7 +325,7 @@ pub fn window_key(f: &Finding, p: &Program, _o: &Outcome) -> Option<String> {
                         // replace reference 0 by NULL in the window column (last) and compare again
                         let fix = |rows: &mut Vec<Vec<V>>| {
                             for r in rows.iter_mut() {
-                                if let Some(l) = r.last_mut() {
+                                for l in r.iter_mut().skip(2) {
                                     if matches!(l, V::Int(0)) || matches!(l, V::Real(x) if *x == 0.0) {
                                         *l = V::Null;
                                     }
